@@ -30,10 +30,11 @@ LEVEL = "exploration"
 SYMS = ["E", "Edup", "Emut", "D", "P", "L", "Mup", "Mdown", "T"]
 RULE = ("(b) all sequences to length 6 (quick) / 7 (thorough) over the 9-symbol alphabet {enqueue fresh, enqueue duplicate of an "
         "earlier accepted frame, enqueue then mutate the passed object, dequeue, peek, len, max_queue_size raise, max_queue_size "
-        "lower below the current length, fragmentation toggle} against a reference queue, seeded sequences to length 30 beyond; "
+        "lower below the current length, fragmentation toggle} against a reference queue, seeded sequences to length 30 beyond (these also with messages "
+        "arriving as FIRST + LAST fragment frames, fresh or repeated); "
         "(a) seeded in-situ runs through a real node's radio and update() with fresh/duplicated arrivals, dequeue points, "
         "capacity changes and toggles. Non-trivial: >= 2 frames accepted; distinct = distinct operation sequences")
-ASSUMPTIONS = ["direct histories use non-fragment message types (fragment types go to the reassembly cache, see C06)",
+ASSUMPTIONS = ["the swept alphabet uses non-fragment message types; fragment frames (complete FIRST + LAST pairs only, see C06 for everything else) appear in the seeded histories",
                "peek() hands out the queue's own object; mutating it is not generated"]
 CLAUSES = {"fifo": "order of acceptance, each exactly once, fields and bytes as enqueued", "bounded": "never more than max_queue_size frames; enqueue() returns whether stored",
            "dedupe": "never two frames with the same origin, frame id and type", "toggle": "fragmentation switch moves all frames in order and keeps max_queue_size"}
@@ -69,7 +70,9 @@ def make(i, base_seed, tier):
             j //= 9
         return {"seed": seed, "kind": "direct", "ops": ops, "frag": bool(i % 2)}
     if i < n + nrand:
-        return {"seed": seed, "kind": "direct", "ops": [rng.choice(SYMS + ["E", "E", "D"]) for _ in range(rng.randint(7, 30))], "frag": rng.random() < 0.5}
+        # beyond the sweep's alphabet: "Efrag" = a message arriving as FIRST + LAST fragment frames (fresh, or a repeat of an
+        # earlier accepted one) - on a FrameQueueFrag the LAST fragment's enqueue() reports whether the re-assembled frame was stored
+        return {"seed": seed, "kind": "direct", "ops": [rng.choice(SYMS + ["E", "E", "D", "Efrag", "Efrag"]) for _ in range(rng.randint(7, 30))], "frag": rng.random() < 0.5}
     ops = []
     for _ in range(rng.randint(4, 25)):
         k = rng.random()
@@ -145,6 +148,34 @@ def _direct(scn, res):
                 if isinstance(f.message, bytearray) and f.message:
                     f.message[0] ^= 0xFF
                 f.message = b"overwritten"
+        elif op == "Efrag":
+            if not frag:
+                continue
+            old = [a_ for a_ in accepted if a_[1][4] == a_[1][3] and len(a_[1][5]) > 24]
+            if old and rng.random() < 0.35:
+                key, content = old[rng.randrange(len(old))]
+            else:
+                fid += 1
+                typ = rng.choice([0, 1, 65, 127])
+                content = (rng.choice([0o1, 0o2, 0o13]), 0, (0x4000 + fid) & 0xFFFF, typ, typ, bytes(rng.getrandbits(8) for _ in range(rng.randint(25, 48))))
+                key = (content[0], content[2], content[3])
+            msg = content[5]
+            h1 = RF24NetworkHeader(content[1], 148)
+            h1.from_node, h1.frame_id, h1.reserved = content[0], content[2], 2
+            h2 = RF24NetworkHeader(content[1], 150)
+            h2.from_node, h2.frame_id, h2.reserved = content[0], content[2], content[3]
+            got1 = q.enqueue(RF24NetworkFrame(h1, msg[:24]))
+            want = ref.enqueue(key, content)
+            got = q.enqueue(RF24NetworkFrame(h2, msg[24:]))
+            if got1 is not True or got is not want:
+                kind = "capacity" if len(ref.q) >= ref.cap or len(q) > ref.cap else "duplicate_rule"
+                res.add("bounded" if kind == "capacity" else "dedupe", {"kind": "enqueue_return", "why": kind, "fragments": True, "after_lowering": ref.cap < 6 and len(ref.q) > ref.cap},
+                        "enqueue(FIRST) returned %r, enqueue(LAST) returned %r, reference %r for the re-assembled frame (length %d, max_queue_size %d, key %r) at op %d of %r"
+                        % (got1, got, want, len(ref.q), ref.cap, key, k, scn["ops"]))
+                return
+            if want:
+                accepted.append((key, content))
+                naccept += 1
         elif op == "D":
             got = q.dequeue()
             want = ref.q.pop(0) if ref.q else None
